@@ -215,6 +215,15 @@ func (a *Act) doCall(st *State, com *ssa.CallCommon, pos tokenPos, site ssa.Valu
 			}
 			return res
 		}
+		if !a.top.hasDynamicCallbacks() {
+			a.u.Opaque["dynamic call "+com.Value.Name()+" in "+fnName(a.fn)] = true
+			a.havocHeaps(st, false)
+			st.setHeap(outHeap, "Int", a.u.D.Fresh("out", "Int"))
+			okNew := a.u.D.Fresh("outok", "Bool")
+			a.u.Fact(implies(okNew, st.heap(outOKHeap, "Bool")))
+			st.setHeap(outOKHeap, "Bool", okNew)
+			return a.freshResult(st, sig)
+		}
 		return a.opaqueCall(st, "dynamic call "+com.Value.Name()+" in "+fnName(a.fn), sig, pos)
 	}
 	return a.callFn(st, callee, args, env, pos, sig)
@@ -414,6 +423,16 @@ func (a *Act) invoke(st *State, com *ssa.CallCommon, pos tokenPos) Val {
 	}
 	if a.invokeIsPure(com) {
 		a.u.Trusted["pure interface method "+full] = true
+		return a.freshResult(st, sig)
+	}
+	if !a.top.hasDynamicCallbacks() {
+		// no callback of the function under verification can be reached through an unknown method: the event trace is spared
+		a.u.Opaque["interface method "+full] = true
+		a.havocHeaps(st, false)
+		st.setHeap(outHeap, "Int", a.u.D.Fresh("out", "Int"))
+		okNew := a.u.D.Fresh("outok", "Bool")
+		a.u.Fact(implies(okNew, st.heap(outOKHeap, "Bool")))
+		st.setHeap(outOKHeap, "Bool", okNew)
 		return a.freshResult(st, sig)
 	}
 	return a.opaqueCall(st, "interface method "+full, sig, pos)
